@@ -29,9 +29,9 @@ ID = 'C18'
 TRUSTED = ['A1 float == real; A2 object arrays == float arrays; dependency contracts as C08; pinv instantiated by the exact '
            '(rational / Gaussian-rational) inverse',
            'C07 (Richardson), C13 (dea3), C08 (selection) are re-executed here, not assumed']
-ASSUMPTIONS = ['steps h0 * ratio**-k with h0 > 0 (generator contract, C10); g and the kernel polynomial of degree <= order+1']
+ASSUMPTIONS = ['steps h0 * ratio**-k with h0 > 0 (generator contract, C10: re-discharged on the real CStepGenerator in contract:generator[C,..]); g and the kernel polynomial of degree <= order+1']
 NOT_DECIDED = ['accuracy within a multiple of the error estimate on transcendental kernels and general analytic g']
-BOUNDED = ['limit-concrete: 97 concrete cases (three transcendental kernels x real / complex / array points x above / below x radial / spiral through Limit.__call__ and Limit.limit, an array mixing regular complex points with a singular one, Residue for p = 1..3 with explicit orders) in floating point, tolerance 1e-7 -- executed, not proved',
+BOUNDED = ['limit-concrete: 121 concrete cases (calls carrying extra positional / keyword arguments through Limit.__call__, Limit.limit and Residue.__call__; three transcendental kernels x real / complex / array points x above / below x radial / spiral through Limit.__call__ and Limit.limit, an array mixing regular complex points with a singular one, Residue for p = 1..3 with explicit orders) in floating point, tolerance 1e-7 -- executed, not proved',
            'array z0 of 2 elements, and one 2x3 non-contiguous view with a different limit at every point; NaN masks on 4 elements (all 16)']
 QUANTIFIED = 'z0, the coefficients c_j / of g (complex), the base step h0: universally quantified; order, pole order, path, method enumerated'
 
@@ -53,6 +53,10 @@ def groups(tier):
         out.append(('residue[p=%d]' % p, ('residue', p, tier)))
     out += [('nan-masks', ('nan',)), ('defaults', ('defaults',))]
     out.append(('limit-concrete', ('lconc',)))
+    # the limit / residue groups run on a contract stub of CStepGenerator (geometric steps on a ray or spiral with the reported
+    # ratio): the real generator is shown to produce exactly that here (generator shared with C10)
+    for part in range(4):
+        out.append(('contract:generator[C,%d]' % part, ('dep', 'C10', 'run_seq', ('C', part, tier), {})))
     return out
 
 
@@ -254,7 +258,12 @@ def run_residue(p, tier):
                     return cplx('F%d' % j)
                 eff = order if order is not None else p + 2
                 gen = Gen(path, eff + 4)
-                Rs = lm.Residue(fun, step=gen, method=method, pole_order=p, order=order, full_output=True)
+                try:
+                    Rs = lm.Residue(fun, step=gen, method=method, pole_order=p, order=order, full_output=True)
+                except Exception as e:
+                    solve.fact(tag + 'every-order-above-pole_order-is-accepted', False, note=repr(e)[:160])
+                    continue
+                solve.fact(tag + 'every-order-above-pole_order-is-accepted', True)
                 solve.fact(tag + 'default-order==pole_order+2', order is not None or Rs.order == p + 2)
                 cap = {}
 
@@ -402,6 +411,9 @@ def run_lconc():
     return {}
 
 def run_group(args):
+    if args[0] == 'dep':
+        import importlib
+        return getattr(importlib.import_module('props.' + args[1]), args[2])(*args[3], **args[4])
     if args[0] == 'lconc':
         return run_lconc()
     if args[0] == 'limit':
@@ -412,6 +424,9 @@ def run_group(args):
 
 
 def replay_case(ob):
+    if ob['name'].startswith('contract:generator['):
+        from . import C10
+        return C10.replay_case(dict(ob, name='seq[' + ob['name'][len('contract:generator['):]))
     if ob['name'].startswith('limit-concrete/'):
         return dict(kind='C18.lconc')
     import re
